@@ -134,7 +134,7 @@ func (d *SimDialer) Enabled(add func(core.Event)) {
 			switch out {
 			case 0:
 				a, b := d.nw.NewPair(fmt.Sprintf("k%d", dl.ID))
-				p := &PeerConn{ID: dl.ID, A: a, B: b}
+				p := &PeerConn{ID: dl.ID, Addr: dl.Addr, A: a, B: b}
 				a.Out.Auto = true // the peer is an actor
 				s.Mu.Lock()
 				dl.state = 1
@@ -165,6 +165,7 @@ func (d *SimDialer) Enabled(add func(core.Event)) {
 // PeerConn is the server side of a connection dialled by the hertz client.
 type PeerConn struct {
 	ID   int
+	Addr string        // the address the client dialled
 	A, B *core.SimConn // A: client (hertz) end, B: server (actor) end
 	Rx   []byte
 	Off  int // parsed up to here
